@@ -36,10 +36,10 @@ class Sin(nn.Module):
 
 def items(tier):
     out = []
-    for hid, act, din, dout, npd, copied in itertools.product(range(len(BOUNDS[tier]["hidden"])), ("tanh", "sin"), (1, 2), (1, 2), (2, 3), (True, False)):
+    for hid, act, din, dout, npd, copied in itertools.product(range(len(BOUNDS[tier]["hidden"])), ("tanh", "sin", "mixed"), (1, 2), (1, 2), (2, 3), (True, False)):
         out.append({"name": "inner|h%d|%s|din%d|dout%d|npd%d|copied=%s" % (hid, act, din, dout, npd, copied), "kind": "inner",
                     "hid": hid, "act": act, "din": din, "dout": dout, "npd": npd, "copied": copied, "tier": tier})
-    for hid, act, din, dout in itertools.product(range(len(BOUNDS[tier]["hidden"])), ("tanh", "sin"), (1, 2), (1, 2)):
+    for hid, act, din, dout in itertools.product(range(len(BOUNDS[tier]["hidden"])), ("tanh", "sin", "mixed"), (1, 2), (1, 2)):
         out.append({"name": "fastpath|h%d|%s|din%d|dout%d" % (hid, act, din, dout), "kind": "fast", "hid": hid, "act": act,
                     "din": din, "dout": dout, "tier": tier, "cost": 3})
     out.append({"name": "histories", "kind": "hist", "tier": tier, "cost": 5})
@@ -49,9 +49,16 @@ def items(tier):
 K = 4          # discretisation points of the branch input
 
 
+def acts_of(act, hidden):
+    """the SPECIFIED activation per hidden layer"""
+    if act == "mixed":
+        return [nn.Tanh(), nn.Sigmoid(), nn.Softplus(), Sin()][:len(hidden)]
+    return [nn.Tanh() if act == "tanh" else Sin() for _ in hidden]
+
+
 def make_net(hidden, act, din, dout, npd, copied, seed):
     torch.manual_seed(seed)
-    a = nn.Tanh() if act == "tanh" else Sin()
+    a = acts_of(act, hidden)
     T = Space({"t": 1})
     fs = FunctionSpace(Interval(T, 0, 1), Space({"e": 1}))
     sampler = GridSampler(fs.input_domain, K).make_static()
@@ -61,13 +68,19 @@ def make_net(hidden, act, din, dout, npd, copied, seed):
     return net, fs, sampler
 
 
-def seq_ref(seq, x):
-    """apply a Sequential of (Trunk)Linear / activation modules with plain functional calls"""
-    for m in seq:
-        if isinstance(m, (nn.Linear, TrunkLinear)):
-            x = Fn.linear(x, m.weight, m.bias)
-        else:
-            x = m(x)
+def seq_ref(seq, x, acts=None):
+    """plain functional evaluation: the linear layers' weights come from the network, the activation after the
+    i-th hidden layer is the SPECIFIED one (acts[i]); without acts the network's own activation modules are used"""
+    i = 0
+    lin = [m for m in seq if isinstance(m, (nn.Linear, TrunkLinear))]
+    if acts is None:
+        for m in seq:
+            x = Fn.linear(x, m.weight, m.bias) if isinstance(m, (nn.Linear, TrunkLinear)) else m(x)
+        return x
+    for i, m in enumerate(lin):
+        x = Fn.linear(x, m.weight, m.bias)
+        if i < len(lin) - 1:
+            x = acts[i](x)
     return x
 
 
@@ -128,8 +141,8 @@ def run_item(item):
                             viol("C09|error|%s|forward|%s" % (type(e).__name__, form), "%s raised %s: %s" % (cfg, type(e).__name__, str(e)[:120]))
                             continue
                         with torch.no_grad():
-                            B = seq_ref(net.branch.sequential, vals.reshape(F, K)).reshape(F, dout, npd)
-                            Tt = seq_ref(net.trunk.sequential, x0).reshape(J, dout, npd)
+                            B = seq_ref(net.branch.sequential, vals.reshape(F, K), acts_of(item["act"], hidden)).reshape(F, dout, npd)
+                            Tt = seq_ref(net.trunk.sequential, x0, acts_of(item["act"], hidden)).reshape(J, dout, npd)
                             exp = torch.einsum("icn,jcn->ijc", B, Tt)
                         if tuple(out.shape) != (F, J, dout):
                             viol("C09|shape|%s" % xform, "%s: output shape %s, expected %s" % (cfg, tuple(out.shape), (F, J, dout)))
